@@ -43,12 +43,12 @@ def _ops():
         st.builds(lambda n, t: f"{n};255;4;0;{t};\n", node, st.sampled_from((0, 2))),
         st.builds(lambda n, t, p: f"{n};255;3;0;{t};{p}\n", node, st.sampled_from((0, 11, 12, 21, 22, 32)), st.sampled_from(("1", "50"))),
     )
-    present = st.builds(lambda n: f"{n};255;0;0;17;2.1\n", node)
+    present = st.builds(lambda n, t, v: f"{n};255;0;0;{t};{v}\n", node, st.sampled_from((17, 17, 18, 18, 0, 23, 6)), st.sampled_from(("2.1", "2.0", "1.4", "")))
     never = st.one_of(
         st.builds(lambda n, t: f"{n};255;3;0;{t};\n", node, st.sampled_from((6, 1, 9, 18))),
         st.sampled_from(("255;255;3;0;3;\n", "junk\n", "0;255;3;0;14;ready\n")),
     )
-    return st.lists(gen.weighted((6, missing_kinds), (2, present), (2, never)).map(lambda l: ["rx", l]), min_size=8, max_size=30)
+    return st.lists(gen.with_ack(gen.weighted((6, missing_kinds), (2, present), (2, never))).map(lambda l: ["rx", l]), min_size=8, max_size=30)
 
 
 _registry = st.sampled_from(
